@@ -829,6 +829,10 @@ class HttpResponseParser(HttpParser[RawResponseMessage]):
 
     def parse_message(self, lines: list[bytes]) -> RawResponseMessage:
         line = lines[0].decode("utf-8", "surrogateescape")
+        if "\n" in line:
+            # Lines end with CRLF here (not lax), so this LF is a bare one:
+            # what follows it is another line, not more of the reason phrase.
+            raise BadStatusLine(line)
         try:
             version, status = line.split(maxsplit=1)
         except ValueError:
